@@ -45,7 +45,7 @@ class Source:
                     n_t = normalize.inline_new_temps(self.tree, localnames.table().get(rel, {}), self.low.ctype)
                     if n_t:
                         self.normalised["temporaries"] = n_t
-                        normalize.finish(self.tree)
+                        normalize.finish(self.tree, localnames.table().get(rel, {}).get("__inventory__"))
             else:
                 self.tree = ast.parse(text, filename=rel)
                 # undo behaviour-preserving refactorings (new constants, helpers, table loops: normalize.py) ...
@@ -56,7 +56,7 @@ class Source:
                 n_t = normalize.inline_new_temps(self.tree, localnames.table().get(rel, {})) if localnames.table().get(rel) else 0
                 if n_t:
                     self.normalised["temporaries"] = n_t
-                    normalize.finish(self.tree)
+                    normalize.finish(self.tree, localnames.table().get(rel, {}).get("__inventory__"))
         except pyxfront.LoweringError as e:
             raise AnalysisError(f"cannot lower {rel}: {e}")
         except SyntaxError as e:
